@@ -62,6 +62,12 @@ impl DestinationMessageFlyweight {
         unsafe { offset_of!(DestinationMessageDefn, channel_data) as Index + (*self.m_struct).channel_length as Index }
     }
 
+    /// Number of bytes the message takes for a channel of the given length.
+    #[inline]
+    pub fn encoded_length(channel_length: usize) -> usize {
+        offset_of!(DestinationMessageDefn, channel_data) + channel_length
+    }
+
     // Parent Setters
 
     #[inline]
